@@ -4,6 +4,7 @@ import (
 	"fmt"
 	"go/ast"
 	"go/types"
+	"strings"
 
 	"golang.org/x/tools/go/packages"
 	"golang.org/x/tools/go/types/typeutil"
@@ -430,4 +431,29 @@ func (p *Prog) callbackOf(owner *FuncInfo, call *ast.CallExpr) *FuncInfo {
 		}
 	}
 	return nil
+}
+
+// buildsType reports whether the expression contains a composite literal whose type name contains typeName,
+// directly or inside a module function it calls statically (a message built by a helper).
+func (p *Prog) buildsType(pkg *packages.Package, e ast.Node, typeName string, depth int) bool {
+	found := false
+	ast.Inspect(e, func(x ast.Node) bool {
+		if found {
+			return false
+		}
+		switch y := x.(type) {
+		case *ast.CompositeLit:
+			if tv, ok := pkg.TypesInfo.Types[y]; ok && tv.Type != nil && strings.Contains(tv.Type.String(), typeName) {
+				found = true
+			}
+		case *ast.CallExpr:
+			if depth > 0 {
+				if callee := p.staticCallee(pkg, y); callee != nil && p.buildsType(callee.Pkg, callee.Decl.Body, typeName, depth-1) {
+					found = true
+				}
+			}
+		}
+		return !found
+	})
+	return found
 }
